@@ -141,6 +141,14 @@ pub fn pre_lists(thorough: bool, seed: usize) -> Vec<(Vec<Vec<u8>>, Vec<u8>)> {
         vec![vec![0xF5, b'a'], vec![0xC1, b'b'], vec![0xC2, b'c']],
         vec!["\u{fc}ber".as_bytes().to_vec()],
         vec!["\u{fc}ber".as_bytes().to_vec(), "\u{e4}hnlich".as_bytes().to_vec()],
+        // one first byte at the very top of the byte range next to ASCII ones
+        vec![vec![0xFF, 0xD8, 0xFF], b"GIF8".to_vec(), b"BM".to_vec()],
+        vec![vec![0xFF, 0xFE], b"<?xml".to_vec(), b"<html".to_vec()],
+        vec![vec![0xFE, b'x'], b"ab".to_vec(), b"cd".to_vec()],
+        vec![vec![0x80, b'x'], b"ab".to_vec()],
+        vec![vec![0x7F, b'x'], vec![0xFF, b'y']],
+        vec![vec![0xFF]],
+        vec![vec![0x00, b'x'], vec![0xFF, b'y'], b"mid".to_vec()],
     ] {
         let mut halpha: Vec<u8> = l.iter().flatten().cloned().collect();
         halpha.extend_from_slice(b" x");
